@@ -13,7 +13,7 @@ from ..lang import ast as _ast
 from ..schema import ObjectType, Schema
 from ..utilities import coerce_variable_values
 from .executor import Executor
-from .get_operation import get_operation_with_type
+from .get_operation import get_operation, get_operation_with_type
 from .instrumentation import Instrumentation
 from .runtime import SubscriptionRuntime
 from .wrappers import GraphQLResult, ResolveInfo
@@ -72,13 +72,24 @@ def subscribe(
     """
     instrumentation = instrumentation or Instrumentation()
 
-    operation, root_type = get_operation_with_type(
-        schema, document, operation_name
-    )
+    # The kind of the selected operation is checked before its root type is
+    # looked up (a schema may not support that kind of operation at all).
+    operation = get_operation(document, operation_name)
     if operation.operation != "subscription":
         raise RuntimeError(
             "`subscribe` does not support %s operation, "
             "use the `execute` helper." % operation.operation
+        )
+
+    operation, root_type = get_operation_with_type(
+        schema, document, operation_name
+    )
+
+    # Refusals that do not depend on the request's variables come first.
+    if not isinstance(runtime, SubscriptionRuntime):
+        raise RuntimeError(
+            "Runtime of type '%s' doesn't support subscriptions."
+            % type(runtime)
         )
 
     coerced_variables = coerce_variable_values(
@@ -96,12 +107,6 @@ def subscribe(
         middlewares=[],
         runtime=runtime,
     )
-
-    if not isinstance(runtime, SubscriptionRuntime):
-        raise RuntimeError(
-            "Runtime of type '%s' doesn't support subscriptions."
-            % type(runtime)
-        )
 
     _on_event = ft.partial(
         execute_subscription_event, executor, root_type, operation
